@@ -97,7 +97,9 @@ def pVal : Nat → Str → R (List Nat × List Tok × Str)
        | _ => pElems f r none 0 [])
     | '"' :: r =>
       let inner := r.takeWhile (fun c => c != '"')
-      if inner.contains '\\' then .error .unsupported else
+      if inner.contains '\\' then .error .unsupported
+      else if inner.any (fun c => c.toNat < 32) then .error .fail     -- JSON: no control characters in strings
+      else
       (match r.dropWhile (fun c => c != '"') with
        | _ :: r' => .ok ([], [.str inner], r')
        | [] => .error .fail)
